@@ -53,6 +53,12 @@ def run(ctx: Context) -> None:
     shotsmod.check_shots_none(ctx, idx, reg, "C13e")
     clause_f(ctx, idx, reg)
     clause_g(ctx, idx)
+    ctx.rule("C13h", "the number of modes inferred from a program is an aggregate over all modes of every instruction (never one element of a "
+                     "mode tuple standing for its largest): valid programs that list their modes in any order are not refused")
+    clause_h(ctx, idx)
+    ctx.rule("C13i", "GaussianTransform is validated against both Bogoliubov conditions (P P^dagger - A A^dagger = I and P A^T = A P^T), either through "
+                     "is_symplectic on the assembled [[P, A], [conj A, conj P]] or through both block identities (matrix-word algebra)")
+    clause_i(ctx, idx)
 
 
 # ================================================================================================ (a)
@@ -1056,3 +1062,111 @@ def clause_g(ctx: Context, idx) -> None:
                                   f"`{norm(n.iter)}` is reached with {n.iter.args[1].id} = {lo} < {a}: tf.range (the TensorFlow connector's range) "
                                   f"refuses start > limit, so a valid program fails at {n.iter.args[1].id} = {lo}", norm(n.iter))
     ctx.require_floor("C13g accumulators / constant-index writes / connector.range loops", n_acc + n_writes + n_ranges, 6)
+
+
+# ================================================================================================ (h), (i)
+
+
+def clause_h(ctx: Context, idx) -> None:
+    fn = idx.find_function("piquasso.api.simulator", "_infer_number_of_modes_from_instructions")
+    aliases = set()
+    changed = True
+
+    def is_modes(e: ast.AST) -> bool:
+        if isinstance(e, ast.Attribute) and e.attr == "modes":
+            return True
+        if isinstance(e, ast.Name) and e.id in aliases:
+            return True
+        if isinstance(e, ast.Call) and (dotted(e.func) or "") == "getattr" and len(e.args) >= 2 and isinstance(e.args[1], ast.Constant) and e.args[1].value == "modes":
+            return True
+        return False
+
+    while changed:
+        changed = False
+        for a in ast.walk(fn.node):
+            if isinstance(a, ast.Assign) and len(a.targets) == 1 and isinstance(a.targets[0], ast.Name) and a.targets[0].id not in aliases and is_modes(a.value):
+                aliases.add(a.targets[0].id)
+                changed = True
+    singles = [x for x in ast.walk(fn.node) if isinstance(x, ast.Subscript) and is_modes(x.value) and not isinstance(x.slice, ast.Slice)]
+    aggregates = [x for x in ast.walk(fn.node) if isinstance(x, ast.Call) and (dotted(x.func) or "").split(".")[-1] in ("max", "amax") and x.args
+                  and any(is_modes(y) for y in ast.walk(x.args[0]))]
+    if not singles and not aggregates:
+        raise AnalysisError("C13h: _infer_number_of_modes_from_instructions no longer reads instruction.modes in a recognised way (undecided)")
+    key = f"{fn.qualname}|largest mode over the whole tuple"
+    ok = bool(aggregates) and not singles
+    ctx.obligation("C13h", key, ok, f"{ctx.relpath(fn.file)}:{fn.line}")
+    if not ok:
+        x = (singles or [fn.node])[0]
+        ctx.violation("C13h", key, fn.file, getattr(x, "lineno", fn.line),
+                      f"`{norm(x)[:60]}` takes one element of an instruction's mode tuple for its largest mode: a program that lists its modes in "
+                      "another order (Q(2, 0)) gets too small a number of modes and is refused with InvalidModes although it is valid",
+                      norm(x)[:100])
+
+
+def clause_i(ctx: Context, idx) -> None:
+    from .. import moments as mo
+    cls = idx.find_class("piquasso.instructions.gates", "GaussianTransform")
+    fn = cls.methods.get("_validate")
+    if fn is None:
+        raise AnalysisError("anchor vanished: GaussianTransform._validate")
+    env = {}
+    for a in ast.walk(fn.node):
+        if isinstance(a, ast.Assign) and len(a.targets) == 1 and isinstance(a.targets[0], ast.Name) and isinstance(a.value, ast.Subscript) \
+                and isinstance(a.value.slice, ast.Constant) and a.value.slice.value in ("passive", "active"):
+            env[a.targets[0].id] = mo.sym("Pb" if a.value.slice.value == "passive" else "Ab")
+    if len(env) < 2:
+        raise AnalysisError("C13i: GaussianTransform._validate no longer binds the passive and active blocks to locals (undecided)")
+    P, A = mo.sym("Pb"), mo.sym("Ab")
+    dag = lambda x: mo.transpose(mo.conj(x))  # noqa: E731
+    key = f"{fn.qualname}|both Bogoliubov conditions"
+    # form 1: is_symplectic(np.block([[P, A], [conj A, conj P]]), form_func=complex_symplectic_form)
+    for c in ast.walk(fn.node):
+        if isinstance(c, ast.Call) and (dotted(c.func) or "").split(".")[-1] == "is_symplectic" and c.args:
+            b = c.args[0]
+            form = next((norm(k.value) for k in c.keywords if k.arg == "form_func"), norm(c.args[1]) if len(c.args) > 1 else "")
+            good = False
+            if isinstance(b, ast.Call) and (dotted(b.func) or "").split(".")[-1] == "block" and b.args and isinstance(b.args[0], ast.List) and len(b.args[0].elts) == 2 \
+                    and all(isinstance(r, ast.List) and len(r.elts) == 2 for r in b.args[0].elts):
+                try:
+                    rows = [[mo.WordEval(env).ev(x) for x in r.elts] for r in b.args[0].elts]
+                    good = rows[0][0] == P and rows[0][1] == A and rows[1][0] == mo.conj(A) and rows[1][1] == mo.conj(P)
+                except mo.Untranslatable:
+                    good = False
+            good = good and form.endswith("complex_symplectic_form")
+            ctx.obligation("C13i", key, good, f"{ctx.relpath(fn.file)}:{c.lineno}", form="is_symplectic on the assembled matrix")
+            if not good:
+                ctx.violation("C13i", key, fn.file, c.lineno,
+                              f"`{norm(c)[:90]}` does not test [[P, A], [conj A, conj P]] against the complex symplectic form: parameters that are not a "
+                              "Bogoliubov transformation are accepted and evolved", norm(c)[:100])
+            return
+    # form 2: block identities L == R (np.allclose(L, R)); required: P P^dagger - A A^dagger - I = 0 and P A^T - A P^T = 0 (or their adjoints / transposes)
+    want1 = mo.add(mo.add(mo.mul(P, dag(P)), mo.mul(A, dag(A)), -1), dict(mo.IDENT), -1)
+    want2 = mo.add(mo.mul(P, mo.transpose(A)), mo.mul(A, mo.transpose(P)), -1)
+
+    def variants(w):
+        out = []
+        for f_ in (lambda x: x, mo.conj, mo.transpose, dag):
+            v = f_(w)
+            out += [v, mo.scale(v, -1)]
+        return out
+
+    have1 = have2 = False
+    n_cmp = 0
+    for c in ast.walk(fn.node):
+        if isinstance(c, ast.Call) and (dotted(c.func) or "").split(".")[-1] in ("allclose", "array_equal") and len(c.args) >= 2:
+            n_cmp += 1
+            try:
+                w = mo.add(mo.WordEval(env).ev(c.args[0]), mo.WordEval(env).ev(c.args[1]), -1)
+            except mo.Untranslatable:
+                continue
+            have1 = have1 or any(w == v for v in variants(want1))
+            have2 = have2 or any(w == v for v in variants(want2))
+    if n_cmp == 0:
+        raise AnalysisError("C13i: GaussianTransform._validate tests symplecticity in a form the rule has no idiom for (undecided)")
+    ok = have1 and have2
+    ctx.obligation("C13i", key, ok, f"{ctx.relpath(fn.file)}:{fn.line}", form="block identities", first=have1, second=have2)
+    if not ok:
+        missing = "P A^T = A P^T" if have1 and not have2 else ("P P^dagger - A A^dagger = I" if have2 and not have1 else "both identities")
+        ctx.violation("C13i", key, fn.file, fn.line,
+                      f"GaussianTransform._validate tests the blocks directly but not {missing}: blocks that are not a Bogoliubov transformation "
+                      "(e.g. P = cosh(r) I, A = sinh(r) R(theta) on two modes) are accepted and evolved on every simulator", missing)
